@@ -3,6 +3,7 @@ package config
 import (
 	"fmt"
 	"io"
+	"strings"
 
 	"github.com/hashicorp/hcl/v2"
 	"github.com/hashicorp/hcl/v2/gohcl"
@@ -100,6 +101,11 @@ func ParseHCLFile(file afero.File) (AmmoHCL, error) {
 	if err != nil {
 		return AmmoHCL{}, fmt.Errorf("%s, io.ReadAll, %w", op, err)
 	}
+
+	// hcl keeps the carriage returns of a file saved with CRLF line endings inside heredoc templates, whereas YAML
+	// reads the line breaks of a block scalar as LF: the line terminators of the file are not part of the description
+	// (inside a quoted string a line break can only be written as an escape sequence, which is left alone)
+	bytes = []byte(strings.ReplaceAll(string(bytes), "\r\n", "\n"))
 
 	parser := hclparse.NewParser()
 	f, diag := parser.ParseHCL(bytes, file.Name())
